@@ -5,6 +5,7 @@ import Pyunicorn.Lemmas.RecurrenceAdaptive
 import Pyunicorn.Lemmas.RecurrenceAffine
 import Pyunicorn.Lemmas.RecurrenceStd
 import Pyunicorn.Lemmas.RecurrenceRound3
+import Pyunicorn.Lemmas.RecurrenceStruct
 /-!
 # C07 — recurrence matrices are exactly the thresholded distance matrices
 
@@ -1536,5 +1537,70 @@ theorem recurrence_probability_spec (R : List (List Bool)) (N : Int) (lag : Nat)
 example : recurrenceRate [[true, false], [true, true]] 2 = some (3/4)
     ∧ recurrenceProbability [[true, false], [true, true]] 2 1 = some 0
     ∧ recurrenceProbability [[true, false], [true, true]] 2 2 = none := by decide +kernel
+
+/-! ### round 4: the `outcome` table derived from the method bodies
+
+`translate/gen_C07.py` regenerates the body of every non-setter method of the six classes as a
+program (raises, tests on the object's switches, calls with dynamic dispatch through the MRO, calls
+on sub-objects, reads of the stored matrix, uses of values that may be `None`) and the tables that
+say which constructor / setter stores which matrix attribute; `Model/RecurrenceStruct.lean`
+interprets them (`runPublic`). -/
+
+/-- **the `outcome` table is what the method bodies of the current source do**: for every public
+non-setter method `m` reachable on class `cls` (generated list), classified by `needOf`, and every
+setting of the switches (`sparse_rqa` — `RecurrencePlot` only —, supremum metric, fixed threshold
+given, `missing_values`, `dim` given, `tau` given), running the regenerated body — with dynamic
+dispatch of every `self.…()` call, the regenerated provision of `R` / `CR` / `JR` by the
+constructors and `None` propagated to its uses — returns, or raises `NotImplementedError` /
+`ValueError`, exactly as `outcome` says; in particular it never ends in an undocumented error. -/
+theorem outcome_derived (cls m : String) (c : Cls) (need : Need) (a : Atoms)
+    (hp : (cls, m) ∈ StructC07.publicMethods) (hc : clsOfName cls = some c)
+    (hn : needOf m = some need) (hv : atomsValid c a = true) :
+    (runPublic cls a m).outcome = some (outcome (cfgOf c a) need) := by
+  have h := derivedAgrees_of_mem (cls, m) hp
+  simp only [derivedAgrees, hc, hn] at h
+  have ha := List.all_eq_true.mp h a (mem_allAtoms a)
+  simpa [hv] using ha
+
+/-- no classified public method of any class ends in an undocumented error (`TypeError` /
+`AttributeError` on a matrix that is not stored, an exception class that is not documented, a
+statement outside the translator's language) — the claim of repairs bb6427c and 98bfc41 for all
+classes, methods and switch settings -/
+theorem public_call_documented (cls m : String) (c : Cls) (need : Need) (a : Atoms)
+    (hp : (cls, m) ∈ StructC07.publicMethods) (hc : clsOfName cls = some c)
+    (hn : needOf m = some need) (hv : atomsValid c a = true) :
+    runPublic cls a m ≠ .crash := by
+  intro h
+  have := outcome_derived cls m c need a hp hc hn hv
+  rw [h] at this
+  simp [Run.outcome] at this
+
+/-- **which construction provides which stored matrix** (derived from the regenerated constructor
+dispatch, setter bodies and parent-constructor calls): `RecurrencePlot` / `RecurrenceNetwork` store
+`R` unless `sparse_rqa`; `CrossRecurrencePlot` stores `CR` and never `R` (`skip_recurrence=True`);
+the joint classes store `JR` -/
+theorem stored_matrix_provided (a : Atoms) :
+    provides 4 "RecurrencePlot" false a "R" = !a.sparse
+    ∧ provides 4 "RecurrenceNetwork" false a "R" = !a.sparse
+    ∧ provides 4 "CrossRecurrencePlot" false a "CR" = true
+    ∧ provides 4 "CrossRecurrencePlot" false a "R" = false
+    ∧ provides 4 "JointRecurrencePlot" false a "JR" = true
+    ∧ provides 4 "JointRecurrenceNetwork" false a "JR" = true :=
+  provides_table a
+
+/-- every public method the generated list contains for the five matrix-holding classes is
+classified (so `outcome_derived` speaks about all of them) -/
+theorem public_methods_classified :
+    StructC07.publicMethods.all (fun p => (needOf p.2).isSome) = true := by decide +kernel
+
+example : runPublic "RecurrencePlot" ⟨true, true, false, false, false, false⟩ "rqa_summary"
+      = .notImplemented
+    ∧ runPublic "RecurrencePlot" ⟨true, true, true, true, false, false⟩ "rqa_summary" = .ret false
+    ∧ runPublic "RecurrencePlot" ⟨true, true, true, false, false, false⟩ "recurrence_matrix"
+      = .ret true
+    ∧ runPublic "CrossRecurrencePlot" ⟨false, true, true, false, true, true⟩ "permutation_entropy"
+      = .valueError
+    ∧ runPublic "InterSystemRecurrenceNetwork" ⟨false, true, true, false, false, false⟩
+        "internal_recurrence_rates" = .ret false := by decide +kernel
 
 end Pyunicorn.Recurrence
